@@ -39,7 +39,7 @@ def cases(tier, rng):
         if r < 0.08:
             kw = dict(xid_reuse=0.5)
         elif r < 0.5:
-            kw = dict(free_modes=('same',))
+            kw = dict(free_modes=('same', 'any'))
         elif r < 0.6:
             kw = dict(objstm=1.0, kinds=('stream', 'hybrid'))
         h = L.gen_history(rng, rng.choice([1, 2, 2, 3, 3, 4, 5]), **kw)
